@@ -72,6 +72,16 @@ def check(run):
             dr.add(n.left.value)
     ok = len(er) == 1 and dr == set(er)
     run.ob("C26.R2", "%s:radix-agreement" % HP, ok, run.site(enc), "" if ok else "intToB64 uses modulus/divisor %s, b64ToInt weights digits by %s: the two must be one radix" % (er, sorted(dr)))
+    quot = [n for n in walk_local(enc.node) if isinstance(n, (ast.Assign, ast.AugAssign)) and dotted(n.targets[0] if isinstance(n, ast.Assign) else n.target) == "i"]
+    okq = bool(quot)
+    qt = None
+    for n in quot:
+        qt = unparse(n)
+        ops = {type(x.op).__name__ for x in ast.walk(n) if isinstance(x, ast.BinOp)} | ({type(n.op).__name__} if isinstance(n, ast.AugAssign) else set())
+        okq = okq and ops <= {"FloorDiv", "RShift"} and bool(ops)
+    run.ob("C26.R2", "%s:integer-quotient" % enc.fq, okq, run.site(enc, quot[0]) if quot else run.site(enc),
+           "" if okq else "intToB64 reduces i with `%s`; anything but integer floor division / right shift (e.g. true division) loses the high digits of "
+           "integers above 2**53" % qt)
     radix = er[0] if len(er) == 1 else None
     # R4 alphabet table: ranges partition range(radix), characters distinct
     m = ix.module(HP)
@@ -101,7 +111,7 @@ def check(run):
     uses_e = any(isinstance(n, ast.Subscript) and dotted(n.value) == "B64ChrByIdx" for n in walk_local(enc.node))
     uses_d = any(isinstance(n, ast.Subscript) and dotted(n.value) == "B64IdxByChr" for n in walk_local(dec.node))
     run.ob("C26.R4", "%s:each-direction-uses-its-table" % HP, uses_e and uses_d, run.site(enc), "" if uses_e and uses_d else "intToB64 must index B64ChrByIdx and b64ToInt B64IdxByChr")
-    run.floor("C26.R2", 1)
+    run.floor("C26.R2", 2)
     run.floor("C26.R4", 3)
     # R3 pad agreement
     forms = {}
@@ -130,6 +140,7 @@ def check(run):
 MUTANTS = [
     Mutant("decode-ignores-input", HP, "codeB2ToB64", "    i = int.from_bytes(b[:n], 'big')  # convert only first n bytes to int\n", "    i = 0\n", {"C26.R1"}, canary=True),
     Mutant("modulus-63", HP, "intToB64", "i % 64", "i % 63", {"C26.R2"}, canary=True),
+    Mutant("float-quotient", HP, "intToB64", "i = i // 64", "i = int(i / 64)", {"C26.R2"}),
     Mutant("weight-5-bits", HP, "b64ToInt", "(e * 6)", "(e * 5)", {"C26.R2"}),
     Mutant("pad-mod-3-in-one-sibling", HP, "codeB2ToB64", "tbs = 2 * (l % 4)", "tbs = 2 * (l % 3)", {"C26.R3"}, canary=True),
     Mutant("nab-bytecount-floor", HP, "nabSextets", "n = sceil(l * 3 / 4)", "n = sceil(l * 3 // 4)", {"C26.R3"}),
